@@ -35,6 +35,7 @@ type liveBin struct {
 	key  int64
 	pct  float64
 	pred *strategy.PredicatePartition
+	id   int // harness-side identity of the partition object
 }
 
 // SUT: a strategy under test plus the harness-side mirror of which partitions are live, in registration order
@@ -47,6 +48,7 @@ type SUT struct {
 	lookup    *strategy.LookupPartitionStrategy
 	predicate *strategy.PredicatePartitionStrategy
 	Live      []liveBin
+	nextID    int
 }
 
 func keyName(k int64) string { return fmt.Sprintf("p%d", k) }
@@ -64,7 +66,8 @@ func NewSUT(c StratCfg) (*SUT, error) {
 		parts := map[string]*strategy.LookupPartition{}
 		for _, p := range c.Parts {
 			parts[keyName(p.Key)] = strategy.NewLookupPartitionWithMetricRegistry(keyName(p.Key), p.Pct, 1, s.Reg)
-			s.Live = append(s.Live, liveBin{key: p.Key, pct: p.Pct})
+			s.Live = append(s.Live, liveBin{key: p.Key, pct: p.Pct, id: s.nextID})
+			s.nextID++
 		}
 		l, err := strategy.NewLookupPartitionStrategyWithMetricRegistry(parts, nil, int32(c.Total), s.Reg)
 		if err != nil {
@@ -76,7 +79,8 @@ func NewSUT(c StratCfg) (*SUT, error) {
 		for _, p := range c.Parts {
 			pp := strategy.NewPredicatePartitionWithMetricRegistry(keyName(p.Key), p.Pct, matchers.StringPredicateMatcher(keyName(p.Key), false), s.Reg)
 			parts = append(parts, pp)
-			s.Live = append(s.Live, liveBin{key: p.Key, pct: p.Pct, pred: pp})
+			s.Live = append(s.Live, liveBin{key: p.Key, pct: p.Pct, pred: pp, id: s.nextID})
+			s.nextID++
 		}
 		l, err := strategy.NewPredicatePartitionStrategyWithMetricRegistry(parts, int32(c.Total), s.Reg)
 		if err != nil {
@@ -161,14 +165,16 @@ func (s *SUT) AddPartition(key int64, pct float64) bool {
 	case 3:
 		ok := s.lookup.AddPartition(keyName(key), strategy.NewLookupPartitionWithMetricRegistry(keyName(key), pct, 1, s.Reg))
 		if ok {
-			s.Live = append(s.Live, liveBin{key: key, pct: pct})
+			s.Live = append(s.Live, liveBin{key: key, pct: pct, id: s.nextID})
+			s.nextID++
 		}
 		return ok
 	case 4:
 		pp := strategy.NewPredicatePartitionWithMetricRegistry(keyName(key), pct, matchers.StringPredicateMatcher(keyName(key), false), s.Reg)
 		ok := s.predicate.AddPartition(pp)
 		if ok {
-			s.Live = append(s.Live, liveBin{key: key, pct: pct, pred: pp})
+			s.Live = append(s.Live, liveBin{key: key, pct: pct, pred: pp, id: s.nextID})
+			s.nextID++
 		}
 		return ok
 	}
@@ -264,6 +270,7 @@ type LimSUT struct {
 	Starts    []int64 // acquire time of listener k
 	CMI       []int64 // in-flight gauge right after listener k was granted
 	acqCount  int
+	BinOf     []int // partition object charged for listener k (-1: <unknown> or unpartitioned)
 }
 
 func NewLimSUT(c LimCfg) (*LimSUT, error) {
@@ -289,6 +296,10 @@ func (l *LimSUT) Acquire(key int64) (bool, int64) {
 		cancel()
 		ctx = c2
 	}
+	binID := -1
+	if fl := l.S.firstLive(key); fl >= 0 {
+		binID = l.S.Live[fl].id
+	}
 	ls, ok := l.Lim.Acquire(ctx)
 	if ok != (ls != nil) {
 		panic("listener returned iff ok violated")
@@ -298,6 +309,7 @@ func (l *LimSUT) Acquire(key int64) (bool, int64) {
 		l.Done = append(l.Done, false)
 		l.Starts = append(l.Starts, now)
 		l.CMI = append(l.CMI, l.Lim.VerifInFlight())
+		l.BinOf = append(l.BinOf, binID)
 	}
 	return ok, now
 }
